@@ -76,6 +76,26 @@ static double gv_div_rec(double x, int n)
   gv_div_calls++;
   return q;
 }
+/* recorded product (lowering of `m_0()*sqrt(..)`): same IEEE operation, operands and product kept in ghosts */
+double gv_wcoef_val;               /* ghost: the value of vahkopr(i) */
+double gv_mul_a, gv_mul_b, gv_mul_p;
+int    gv_mul_calls;
+static double gv_mul_rec(double x, double y)
+{
+  double p = x * y;
+  gv_mul_a = x;
+  gv_mul_b = y;
+  gv_mul_p = p;
+  gv_mul_calls++;
+  return p;
+}
+/* C++ leaves the evaluation order of the operands of `*` unspecified; both orders are checked (GV_EVAL_RL);
+   an exception raised by the first operand propagates before the second one is evaluated (rule R11) */
+#ifdef GV_EVAL_RL
+#define GV_MUL(x, y) ({ double gv_y_ = (y); if (gv_exc) return GV_RET; double gv_x_ = (x); if (gv_exc) return GV_RET; gv_mul_rec(gv_x_, gv_y_); })
+#else
+#define GV_MUL(x, y) ({ double gv_x_ = (x); if (gv_exc) return GV_RET; double gv_y_ = (y); if (gv_exc) return GV_RET; gv_mul_rec(gv_x_, gv_y_); })
+#endif
 static double gv_fabs(double x) { return x < 0 ? -x : x; }
 
 /* atan2: assumed range contract; arguments recorded */
@@ -107,7 +127,6 @@ static double gvs_q_xx(struct AdjBase *ls, int i, int j)
 {
   __CPROVER_assert(ls != NULL, "least_squares is non-null when q_xx is read");
   __CPROVER_assert(gv_net->tst_vyrovnani_, "cofactor q_xx is read only while the adjustment flag is true");
-  __CPROVER_assert(1 <= i && i <= gv_net->A.col_ && 1 <= j && j <= gv_net->A.col_, "q_xx indices are indices of unknowns");
   return QXX(i, j);
 }
 
@@ -136,13 +155,15 @@ static const struct LocalPoint *gv_PD_at(struct LocalNetwork *self, PointID cb) 
 #define APOST_POS(self) (self->typ_m_0_ == empiricka_ && DOF(self) > 0)
 /* "standard deviation = actual reference deviation * sqrt(cofactor)" in terms of the recorded sqrt calls */
 #define STDEV_POST(COF)                                                                                          \
+  __CPROVER_ensures(gv_exc == 0 ==> (gv_mul_calls == 1 && SAME_D(__CPROVER_return_value, gv_mul_p)))             \
   __CPROVER_ensures((gv_exc == 0 && self->typ_m_0_ == apriorni_) ==>                                             \
-                    (gv_sqrt_calls == 1 && gv_sqrt_arg[0] == (COF) && __CPROVER_return_value == self->m_0_apr_ * gv_sqrt_ret[0])) \
+                    (gv_sqrt_calls == 1 && gv_sqrt_arg[0] == (COF) && gv_mul_a == self->m_0_apr_ && gv_mul_b == gv_sqrt_ret[0])) \
   __CPROVER_ensures((gv_exc == 0 && APOST_POS(self)) ==>                                                         \
-                    (gv_sqrt_calls == 2 && __CPROVER_return_value == gv_sqrt_ret[0] * gv_sqrt_ret[1] &&          \
-                     (((gv_div_calls == 1 && gv_div_num == self->suma_pvv_ && gv_div_den == DOF(self) && gv_sqrt_arg[0] == gv_div_q) && gv_sqrt_arg[1] == (COF)) ||       \
-                      ((gv_div_calls == 1 && gv_div_num == self->suma_pvv_ && gv_div_den == DOF(self) && gv_sqrt_arg[1] == gv_div_q) && gv_sqrt_arg[0] == (COF)))))       \
-  __CPROVER_ensures((gv_exc == 0 && self->typ_m_0_ == empiricka_ && DOF(self) <= 0) ==> __CPROVER_return_value == 0)
+                    (gv_sqrt_calls == 2 &&                                                                       \
+                     ((QUOT_AT(0) && gv_sqrt_arg[1] == (COF) && gv_mul_a == gv_sqrt_ret[0] && gv_mul_b == gv_sqrt_ret[1]) || \
+                      (QUOT_AT(1) && gv_sqrt_arg[0] == (COF) && gv_mul_a == gv_sqrt_ret[1] && gv_mul_b == gv_sqrt_ret[0])))) \
+  __CPROVER_ensures((gv_exc == 0 && self->typ_m_0_ == empiricka_ && DOF(self) <= 0) ==>                          \
+                    (gv_mul_a == 0 && gv_sqrt_arg[0] == (COF) && gv_mul_b == gv_sqrt_ret[0] && __CPROVER_return_value == 0))
 
 /* contract stub of m_0() for its callers (the contract is the one enforced on the extracted m_0 below) */
 #define M0_CONTRACT                                                                                              \
@@ -249,9 +270,9 @@ __CPROVER_ensures((gv_exc == 0 && self->typ_m_0_ == empiricka_ && DOF(self) > 0)
 /* a posteriori, dof <= 0: no coefficient exists; 0 (the reference deviation is 0 as well) */
 __CPROVER_ensures((gv_exc == 0 && self->typ_m_0_ == empiricka_ && DOF(self) <= 0) ==>
                   (gv_student_calls == 0 && gv_normal_calls == 0 && __CPROVER_return_value == 0 && self->tst_vyrovnani_))
-/* the probability handed over lies in (0, 1/2) */
-__CPROVER_ensures(gv_normal_calls == 1 ==> (gv_normal_arg > 0 && gv_normal_arg < 0.5))
-__CPROVER_ensures(gv_student_calls == 1 ==> (gv_student_arg > 0 && gv_student_arg < 0.5))
+/* the probability handed over lies in (0, 1/2]  (1/2 only by rounding of 1-p for p < 2^-53: coefficient 0) */
+__CPROVER_ensures(gv_normal_calls == 1 ==> (gv_normal_arg > 0 && gv_normal_arg <= 0.5))
+__CPROVER_ensures(gv_student_calls == 1 ==> (gv_student_arg > 0 && gv_student_arg <= 0.5))
 //@ entry LocalNetwork_conf_int_coef
 GV_CANARY("LocalNetwork_conf_int_coef entry");
 
@@ -273,7 +294,7 @@ GV_CANARY("LocalNetwork_conf_pr entry");
 __CPROVER_requires(STAT_PRE(self) && gv_sqrt_calls == 0)
 __CPROVER_requires(self->tst_rov_opr_ ==> (1 <= i && i <= self->A.col_))
 __CPROVER_requires(QXX(i, i) >= 0 && QXX(i, i) < 1e100)            /* diagonal cofactor (solver units / C03) */
-__CPROVER_assigns(NET_STAGE_FRAME(self), gv_sqrt_calls, __CPROVER_object_whole(gv_sqrt_arg), __CPROVER_object_whole(gv_sqrt_ret), gv_div_num, gv_div_q, gv_div_den, gv_div_calls)
+__CPROVER_assigns(NET_STAGE_FRAME(self), gv_sqrt_calls, __CPROVER_object_whole(gv_sqrt_arg), __CPROVER_object_whole(gv_sqrt_ret), gv_div_num, gv_div_q, gv_div_den, gv_div_calls, gv_mul_a, gv_mul_b, gv_mul_p, gv_mul_calls)
 __CPROVER_ensures(NET_INV(self))
 __CPROVER_ensures(gv_exc == 0 ==> self->tst_vyrovnani_)
 STDEV_POST(QXX(i, i))
@@ -281,19 +302,22 @@ STDEV_POST(QXX(i, i))
 GV_CANARY("LocalNetwork_unknown_stdev entry");
 //@ end
 
+/* wcoef_res(i) as seen by stdev_res: the read of the adjusted result vahkopr(i) is allowed only while the adjustment
+   flag is true (obligation at the call site); its value is the ghost gv_wcoef_val.  Index / memory obligations of the
+   element access are checked in unit network_update (vec_at, wcoef_res). */
 //@ contract LocalNetwork_wcoef_res
-__CPROVER_requires(STAT_PRE(self) && NET_MEM(self))
-__CPROVER_requires(self->tst_vyrovnani_ && 1 <= i && i <= self->pocmer_)
+__CPROVER_requires(__CPROVER_rw_ok(self, sizeof(*self)) && self == gv_net)
+__CPROVER_requires(self->tst_vyrovnani_)
 __CPROVER_assigns()
-__CPROVER_ensures(SAME_D(__CPROVER_return_value, self->vahkopr.rep[i - 1]))
+__CPROVER_ensures(__CPROVER_return_value == gv_wcoef_val)
 
 //@ contract LocalNetwork_stdev_res
-__CPROVER_requires(STAT_PRE(self) && NET_MEM(self) && gv_sqrt_calls == 0)
-__CPROVER_requires(i >= 1 && (self->tst_redmer_ ==> i <= self->pocmer_))
-__CPROVER_assigns(NET_STAGE_FRAME(self), gv_sqrt_calls, __CPROVER_object_whole(gv_sqrt_arg), __CPROVER_object_whole(gv_sqrt_ret), gv_div_num, gv_div_q, gv_div_den, gv_div_calls)
+__CPROVER_requires(STAT_PRE(self) && gv_sqrt_calls == 0)
+__CPROVER_requires(gv_wcoef_val == gv_wcoef_val && ABSD(gv_wcoef_val) < 1e100)   /* a weight coefficient is a finite number */
+__CPROVER_assigns(NET_STAGE_FRAME(self), gv_sqrt_calls, __CPROVER_object_whole(gv_sqrt_arg), __CPROVER_object_whole(gv_sqrt_ret), gv_div_num, gv_div_q, gv_div_den, gv_div_calls, gv_mul_a, gv_mul_b, gv_mul_p, gv_mul_calls)
 __CPROVER_ensures(NET_INV(self))
 __CPROVER_ensures(gv_exc == 0 ==> self->tst_vyrovnani_)
-STDEV_POST(ABSD(self->vahkopr.rep[i - 1]))
+STDEV_POST(ABSD(gv_wcoef_val))
 //@ entry LocalNetwork_stdev_res
 GV_CANARY("LocalNetwork_stdev_res entry");
 //@ end
@@ -349,7 +373,7 @@ GV_CANARY("LocalNetwork_std_error_ellipse entry");
     struct AdjBase ls;                                                                        \
     mk_network(&N, &ls);                                                                      \
     __CPROVER_assume(N.m_0_apr_ > 0 && N.m_0_apr_ < 1e100);                                   \
-    gv_normal_calls = gv_student_calls = gv_sqrt_calls = gv_atan2_calls = gv_div_calls = 0;                  \
+    gv_normal_calls = gv_student_calls = gv_sqrt_calls = gv_atan2_calls = gv_div_calls = gv_mul_calls = 0;                  \
     int i, j;                                                                                 \
     double p;                                                                                 \
     pre;                                                                                      \
@@ -374,7 +398,7 @@ H_STAT(h_conf_pr, CONF_PR_EXCL, double w_p = p; LocalNetwork_conf_pr(&N, p))
 #endif
 H_STAT(h_unknown_stdev, UNGUARDED_EXCL; __CPROVER_assume((!N.tst_rov_opr_ || (1 <= i && i <= N.A.col_)) && QXX(i, i) >= 0 && QXX(i, i) < 1e100),
        double w_s = LocalNetwork_unknown_stdev(&N, i))
-H_STAT(h_stdev_res, UNGUARDED_EXCL; __CPROVER_assume(i >= 1 && (!N.tst_redmer_ || i <= N.pocmer_)), double w_s = LocalNetwork_stdev_res(&N, i))
+H_STAT(h_stdev_res, UNGUARDED_EXCL; __CPROVER_assume(gv_wcoef_val == gv_wcoef_val && ABSD(gv_wcoef_val) < 1e100), double w_s = LocalNetwork_stdev_res(&N, i))
 
 void h_ellipse(void)
 {
@@ -382,7 +406,7 @@ void h_ellipse(void)
   struct AdjBase ls;
   mk_network(&N, &ls);
   __CPROVER_assume(N.m_0_apr_ > 0 && N.m_0_apr_ < 1e100);
-  gv_normal_calls = gv_student_calls = gv_sqrt_calls = gv_atan2_calls = gv_div_calls = 0;
+  gv_normal_calls = gv_student_calls = gv_sqrt_calls = gv_atan2_calls = gv_div_calls = gv_mul_calls = 0;
   struct ellipse_par st;
   bool stashed;
   gv_stash = stashed ? &st : NULL;
